@@ -112,7 +112,12 @@ func (c *ConfigManager) ReloadFromRaw(data []byte) (err error) {
 	// config hash don't include external labels
 	eLb := info.Config.GlobalConfig.ExternalLabels
 	info.Config.GlobalConfig.ExternalLabels = []labels.Label{}
-	hash, err := hashstructure.Hash(info.Config, hashstructure.FormatV2, nil)
+	// the structural hash skips unexported state, e.g. the compiled regular expressions of
+	// relabel rules, so the canonical text form of the config is hashed together with it
+	hash, err := hashstructure.Hash(struct {
+		Config *config.Config
+		Text   string
+	}{info.Config, info.Config.String()}, hashstructure.FormatV2, nil)
 	if err != nil {
 		return errors.Wrapf(err, "get config hash")
 	}
